@@ -622,8 +622,16 @@ impl AstLowering {
         let body = if let Some(ref body_stmts) = m.body {
             self.lower_statements(body_stmts)?
         } else {
-            // Abstract method with no body
-            vec![]
+            // Only trait methods may be declared without a body. An inherent method without one has
+            // nothing to emit (the emitter would produce `fn f(&self) -> T;` inside an `impl`).
+            self.scopes.pop();
+            return Err(LoweringError {
+                message: format!(
+                    "method '{}' has no body; only trait methods may be declared without one",
+                    m.name
+                ),
+                span: IrSpan::default(),
+            });
         };
         self.scopes.pop();
 
